@@ -46,7 +46,9 @@ LEVEL_NOTE = 'trusted: reference model, the committed fixture and its manifest, 
 FIXTURE = os.path.join(os.path.dirname(os.path.dirname(os.path.dirname(os.path.abspath(__file__)))), 'fixtures', 'format_5_6_3')
 JSON_KEYS = ['a', 'b', 'ab', 1, 2, {'f': '2.5'}, None, True, '', 'é ']
 JSON_VALUES = [0, 1, -7, {'f': '1.5'}, 'v', 'text\r\nline', None, True, {'l': [1, 2, 3]}, {'l': [1, {'d': [['k', 1]]}]}, '']
-SETTING_KEYS = ('eviction_policy', 'cull_limit', 'statistics', 'tag_index', 'disk_min_file_size', 'size_limit', 'disk_pickle_protocol')
+SETTING_KEYS = ('eviction_policy', 'cull_limit', 'statistics', 'tag_index', 'disk_min_file_size', 'size_limit', 'disk_pickle_protocol',
+                'sqlite_cache_size', 'sqlite_mmap_size', 'sqlite_synchronous')
+PRAGMAS = {'sqlite_cache_size': 'cache_size', 'sqlite_mmap_size': 'mmap_size', 'sqlite_synchronous': 'synchronous'}
 
 
 def gen_case(seed, tier):
@@ -60,6 +62,12 @@ def gen_case(seed, tier):
                                       'shards': rng.choice((1, 2, 3)), 'size_limit': rng.choice((None, 4000000)),
                                       'maxlen': rng.choice((None, 3, 5))}}
     settings = seqcache.gen_settings(rng, 'c18')
+    if rng.random() < 0.4:
+        settings['sqlite_cache_size'] = rng.choice((1000, 4096))
+    if rng.random() < 0.3:
+        settings['sqlite_mmap_size'] = rng.choice((0, 2 ** 20))
+    if rng.random() < 0.3:
+        settings['sqlite_synchronous'] = rng.choice((0, 2))
     disk = 'json' if rng.random() < 0.25 else None
     n_ops = rng.choice((20, 40, 80)) if tier == 'quick' else rng.choice((30, 80, 150))
     saved_k, saved_v = seqcache.KEYS, seqcache.SMALL_VALUES
@@ -103,6 +111,13 @@ def check_settings(cache, settings, violations, when):
                 violations.append({'rule': 'C18/setting-not-persisted', 'sig': k,
                                    'detail': '%s: %s is %r, created with %r' % (when, k, got, settings[k])})
                 return
+            if k in PRAGMAS:
+                # the stored pragma must also be in force on this handle's connection
+                (val,), = cache._sql('PRAGMA %s' % PRAGMAS[k]).fetchall()
+                if val != settings[k]:
+                    violations.append({'rule': 'C18/setting-not-persisted', 'sig': k + ':pragma',
+                                       'detail': '%s: PRAGMA %s is %r on the connection, created with %r' % (when, PRAGMAS[k], val, settings[k])})
+                    return
 
 
 def run_hist(case):
